@@ -28,7 +28,7 @@ RULE = ('states = distinct (state digest, argument objects) values reached by ca
         'scheduled executions + set-order permutations + seed runs, each compared with the fresh-process reference; '
         'traces_validated_against_impl = executions whose every observation matched. Non-trivial: histories of length >= 2 whose calls share an '
         'argument object or follow a raising call, schedules with a real preemption, permutations other than the identity, seeds other than 0.')
-ASSUMPTIONS = ['the GIL: scheduling points are line/call events, not bytecodes', 'hash seeds are a bounded enumeration, backed by explicit control of set iteration order']
+ASSUMPTIONS = ['the GIL: scheduling points are line / call events (quick) and additionally every bytecode instruction of the smallest program (thorough)', 'hash seeds are a bounded enumeration, backed by explicit control of set iteration order']
 WORKER = os.path.join(core.HERE, 'mc', 'c11_worker.py')
 CALL_NAMES = ['rename+L1', 'typeparam+L1', 'all+G1', 'rename+G1', 'typeparam+G1', 'ann+RA', 'ann-default', 'hints', 'hints+RA', 'fstring', 'hoist', 'hoist2', 'fold',
               'fold2', 'deep', 'awslambda', 'syntaxerror', 'midfail', 'rename+str', 'shebang', 'shebang+hugeint', 'hugehex', 'bytes-latin1']
@@ -230,7 +230,10 @@ THREAD_PROGRAMS = [
     ("def beta(value_name, second_name):\n    result_name = value_name + second_name\n    return [result_name, result_name, b'other bytes value', b'other bytes value', None, None, None, None]\nprint(beta(1, 2), 1 + 2)\n", {'rename_globals': True}),
     ("deep_value = " + " + ".join(["term_name"] * 150) + "\nprint(deep_value)\n", {}),
     ("class Gamma:\n    def method(self, argument_name):\n        local_name = argument_name\n        return local_name * 24 * 60\nprint(Gamma().method(2), 'third literal', 'third literal')\n", {'remove_literal_statements': True}),
+    # the smallest program that still hoists, renames, folds and prints an f-string: the one explored at bytecode granularity (thorough tier)
+    ("def f(argument_name):\n    return [argument_name, 'literal text', 'literal text', f'{argument_name!r}', 2 * 3]\n", {}),
 ]
+TINY = 4
 
 
 def thread_bodies(indices):
@@ -319,6 +322,32 @@ def check_schedules(tier, part, nparts, res):
                         res.violation('thread-path-depends-on-schedule:program%d' % idxs[0], {'gran': 'call', 'threads': list(idxs), 'schedule': schedule, 'kind': 'sched'}, out[1])
                         continue
                     verify(out[1], idxs, expected, res, {'gran': 'call', 'threads': list(idxs), 'schedule': schedule}, True)
+        # every single preemption at BYTECODE granularity of the smallest program (a switch between two instructions of one line - e.g. between
+        # the load and the store of `x.count += 1` - is invisible at line granularity)
+        idxs = (TINY, 1)
+        sched.Run(thread_bodies(idxs), [], 'opcode').execute()      # the first opcode-traced execution of a process instruments lazily: warm up
+        results, points = sched.Run(thread_bodies(idxs), [], 'opcode').execute()
+        verify(results, idxs, expected, res, {'gran': 'opcode', 'threads': list(idxs), 'schedule': []}, False)
+        nop = points[0]
+        res.notes['opcode_points_of_smallest_program'] = nop
+        for k in range(1, nop + 1):
+            n += 1
+            if n % nparts != part:
+                continue
+            schedule = [(0, k), (1, None)]
+            case = {'gran': 'opcode', 'threads': list(idxs), 'schedule': schedule}
+            out = run_schedule(idxs, schedule, 'opcode')
+            if out[0] == 'diverged' or out[2][0] != nop:
+                again = run_schedule(idxs, schedule, 'opcode')
+                if again[0] != out[0] or (out[0] == 'ok' and again[2] != out[2]):
+                    raise core.HarnessError('nondeterministic replay of schedule %r: %r then %r' % (schedule, out[:1] + out[2:], again[:1] + again[2:]))
+                res.count('evaluations')
+                res.count('transitions')
+                res.count('distinct_nontrivial')
+                res.violation('thread-path-depends-on-schedule:program%d' % idxs[0], dict(case, kind='sched'),
+                              'threads %s schedule %s (bytecode granularity): the preempted thread %s' % (list(idxs), schedule, out[1] if out[0] == 'diverged' else 'passed %d points instead of %d' % (out[2][0], nop)))
+                continue
+            verify(out[1], idxs, expected, res, case, True)
         idxs = (0, 1, 3)
         results, points = sched.Run(thread_bodies(idxs), [], 'line').execute()
         for k in range(1, points[0] + 1):
